@@ -300,11 +300,20 @@ func fnPos(prog *ssa.Program, f *ssa.Function) (string, int) {
 }
 
 func isUser(f *ssa.Function) bool {
+	if f != nil && f.Pkg == nil && strings.HasPrefix(f.Synthetic, "instance of") && f.Origin() != nil {
+		return isUser(f.Origin()) // an instantiation of a user's generic function
+	}
 	return f != nil && f.Pkg != nil && strings.HasPrefix(f.Pkg.Pkg.Path(), "prog") && f.Synthetic == ""
 }
 
 func isWrapper(f *ssa.Function) bool {
-	return f != nil && f.Synthetic != "" && f.Pkg == nil || f != nil && (strings.HasSuffix(f.Name(), "$bound") || strings.HasSuffix(f.Name(), "$thunk"))
+	if f == nil {
+		return false
+	}
+	if strings.HasPrefix(f.Synthetic, "instance of") {
+		return false // an instantiation of a generic function is a function of its own (it has the generic's body)
+	}
+	return f.Synthetic != "" && f.Pkg == nil || strings.HasSuffix(f.Name(), "$bound") || strings.HasSuffix(f.Name(), "$thunk")
 }
 
 func runPointer(l loaded, cfgPath string) (res ptrRes) {
